@@ -28,7 +28,7 @@ CHECKS = {
          "reference CRC/Adler anchored to published check values; *_NO_HDR modes do not verify (documented)",
          "single-fault injection over wrapped streams + checksum oracle recomputed from delivered bytes"),
  "C05": ("exploration", "Every kernel variant and the codec (one-shot and streaming) run with each buffer in its own mapping bounded by inaccessible pages, consumed chunks made PROT_NONE, canaries around every buffer, context invariants, and the all-C build under ASan + bounds; a fault or damaged canary is attributed to the buffer and the faulting library symbol.",
-         "declared ranges follow the headers (gf tables 32*k*rows, documented alignment/multiples); in-buffer over-reads are invisible to page protection; negative vects on RAID assembly kernels is a recorded known finding",
+         "declared ranges follow the headers (gf tables 32*k*rows, documented alignment/multiples); in-buffer over-reads are invisible to page protection",
          "MMU guard pages + released-chunk histories + canaries + ASan/bounds, over generated workloads"),
  "C15": ("exploration", "(a) every dispatch slot is resolved by running the resolvers directly, then every writable page of libisal.so is made read-only before the first API call; a serial pass and 16 threads with independent contexts and shared read-only inputs run 11 API scenarios: any write to library data faults, results must equal the serial ones; (b) first calls raced from 2/4/16 threads in fresh processes; (c) un-warmed threaded workload on the all-C build under ThreadSanitizer; (e) every scenario repeated with 5 garbage prefills of context/level_buf/output/output structs at two addresses and after reset / re-init reuse histories: all observable results identical.",
          "the universal quantifier over interleavings is replaced by the no-shared-writes observation plus stress; documented caller obligations (zeroed histogram) respected",
@@ -49,7 +49,7 @@ CHECKS = {
          "trusts the Rocksoft-model reference and the catalogue check values; per-routine init/xorout convention read from the headers",
          "runtime differential oracle (bitwise CRC/Adler reference) + composition monitor + guard pages"),
  "C08": ("exploration", "Every xor/pq gen/check variant run on generated arrays (vects 3..257, documented length multiples and alignments) against Horner evaluation in an independent GF(2^8); checks must accept reference-consistent arrays and flag every injected single-byte corruption; out-of-contract vects with all vectors unmapped.",
-         "trusts the reference field; documented alignment/length contract respected; negative vects on the assembly kernels is a recorded known finding",
+         "trusts the reference field; documented alignment/length contract respected",
          "runtime differential oracle + single-byte fault injection + guard pages/unmapped vectors"),
  "C09": ("exploration", "gf_invert_matrix judged by an independent determinant and product on thousands of structured matrices; generator matrices compared with the closed formulas; every survivor set for all small (m,k) and minor enumeration for the documented Vandermonde families and Cauchy, recovered through the real encode path.",
          "trusts the independent GF(2^8) reference; equivalence of singular parity minors and undecodable survivor sets",
